@@ -464,7 +464,18 @@ def write_lines(path, objs):
             f.write("\n")
 
 
+_WORKDIRS = {}
+
+
 def workdir(prop):
-    d = os.path.join(WORK, prop)
+    """Scratch directory of this run of the check: .work/<prop>/run-<pid>. Private to the process (two runs of the
+    same check may overlap: a regression chain next to an evaluation - shared file names there made TLC read a
+    file another run had just deleted), removed when the process ends."""
+    d = _WORKDIRS.get(prop)
+    if d is None:
+        d = os.path.join(WORK, prop, "run-%d" % os.getpid())
+        _WORKDIRS[prop] = d
+        import atexit, shutil
+        atexit.register(lambda p=d: shutil.rmtree(p, ignore_errors=True))
     os.makedirs(d, exist_ok=True)
     return d
